@@ -1164,3 +1164,60 @@ def reachable_cp(fn, starts, cut_edges=(), cut_blocks=(), init=None, max_states=
                 continue
             work.append((s, ns))
     return blocks
+
+
+def return_bool_values(fn, cut_edges=(), max_states=20000):
+    """Possible values of a bool-returning body's result under the given edge cuts:
+    a set drawn from {True, False, None} (None = not a compile-time constant on that path).
+    Tracks every bool local through constants, copies and Not, path-sensitively."""
+    cut_edges = set(cut_edges)
+    bools = {i for i, t in enumerate(fn.locals) if t == 'bool'}
+    out = set()
+    seen = set()
+    work = [(0, frozenset())]
+    while work:
+        bb, st = work.pop()
+        if (bb, st) in seen:
+            continue
+        seen.add((bb, st))
+        if len(seen) > max_states:
+            return {None}
+        env = dict(st)
+        b = fn.bbs[bb]
+        for s_ in b['s']:
+            d = s_[0]
+            if d[1] or d[0] not in bools:
+                continue
+            rv = s_[1]
+            v = None
+            if rv[0] == 'use':
+                if rv[1][0] == 'k':
+                    cv = _const_val(rv[1][1])
+                    v = None if cv is None else bool(cv)
+                elif not rv[1][1][1]:
+                    v = env.get(rv[1][1][0])
+            elif rv[0] == 'un' and rv[1] == 'Not' and rv[2][0] in ('c', 'm') and not rv[2][1][1]:
+                x = env.get(rv[2][1][0])
+                v = None if x is None else (not x)
+            if v is None:
+                env.pop(d[0], None)
+            else:
+                env[d[0]] = v
+        t = b['t']
+        if t[0] == 'call' and not t[4][1]:
+            env.pop(t[4][0], None)
+        if t[0] == 'ret':
+            out.add(env.get(0))
+            continue
+        nxt = None
+        if t[0] == 'sw' and t[1][0] in ('c', 'm') and not t[1][1][1] and t[1][1][0] in env:
+            listed = dict(t[2])
+            nxt = [listed.get('1' if env[t[1][1][0]] else '0', t[3])]
+        if nxt is None:
+            nxt = succs(fn, bb)
+        ns = frozenset(env.items())
+        for x in nxt:
+            if (bb, x) in cut_edges:
+                continue
+            work.append((x, ns))
+    return out
